@@ -48,8 +48,38 @@ def run(job):
         out['exception'] = '%s: %s' % (type(e).__name__, e)
         out['trace'] = traceback.format_exc()[-1500:]
         out['post_holds'] = False
+        out['harness_fault'] = harness_fault(e)
     out['entered'] = sorted(entered)
     return out
+
+
+def harness_fault(e):
+    """True when the exception says something about the harness rather than about pexpect: it was raised by
+    harness/stub code itself, or pexpect used a part of a stubbed object's API that the stub does not model
+    (e.g. a refactoring that calls socket.send in a loop instead of sendall).  Such a run decides nothing."""
+    tb = e.__traceback__
+    last = None
+    while tb is not None:
+        last = tb
+        tb = tb.tb_next
+    fn = last.tb_frame.f_code.co_filename if last is not None else ''
+    in_verif = fn.startswith(VERIF + os.sep)
+    if isinstance(e, (NotImplementedError, ImportError, NameError)) and in_verif:
+        return True
+    if isinstance(e, AttributeError):
+        obj = getattr(e, 'obj', None)
+        mod = getattr(type(obj), '__module__', '') if obj is not None else ''
+        if isinstance(obj, type):
+            mod = getattr(obj, '__module__', '')
+        if in_verif or mod.startswith(('harness', 'symx')):
+            return True
+        # attribute of the code under test that no longer exists (internal renamed by a refactoring)
+        objmod = getattr(obj, '__module__', '') if obj is not None else ''
+        if in_verif and (mod.startswith('pexpect') or str(objmod).startswith('pexpect')):
+            return True
+    if isinstance(e, TypeError) and in_verif and 'argument' in str(e):
+        return True        # signature of an internal changed
+    return False
 
 
 def dry(job):
@@ -83,8 +113,20 @@ def dry(job):
     return {'dry_runs': n, 'dry_failures': bad[:5], 'n_dry_failures': len(bad), 'entered': sorted(entered)}
 
 
+def probe(job):
+    import harness.probes as P
+    hmod = importlib.import_module(job['module'])
+    out = {}
+    for name in getattr(hmod, 'PROBES', []):
+        out[name] = P.run_probe(getattr(P, name))
+    return {'probes': out}
+
+
 def main():
     job = json.loads(sys.argv[1])
+    if job.get('mode') == 'probe':
+        sys.stdout.write('\nRESULT:' + json.dumps(probe(job)) + '\n')
+        return
     if job.get('mode') == 'dry':
         sys.stdout.write('\nRESULT:' + json.dumps(dry(job)) + '\n')
         return
